@@ -646,10 +646,14 @@ def part_and_container_twins(ctx, res, c):
 
 def run(ctx, res):
     n = CASES[ctx.tier]
-    for c in range(n * 3):
-        table_twins(ctx, res, c)
     for c in range(n * 4):
         element_twins(ctx, res, c)
+    if res.violations:
+        # element clones already tell on one another: everything below is built on them (and a shared hidden
+        # parent makes every later query crawl) - report now instead of running into the watchdog
+        return
+    for c in range(n * 3):
+        table_twins(ctx, res, c)
     for c in range(n):
         doc_twins(ctx, res, c)
     for c in range(n // 2):
